@@ -189,16 +189,16 @@ structure HdrInfo where
   chunked : Bool
 deriving Repr
 
-def bConnection : Bytes := ascii "connection"
-def bUpgrade : Bytes := ascii "upgrade"
-def bContentEncoding : Bytes := ascii "content-encoding"
-def bTransferEncoding : Bytes := ascii "transfer-encoding"
-def bContentLength : Bytes := ascii "content-length"
-def bHost : Bytes := ascii "host"
-def bSecWsKey1 : Bytes := ascii "sec-websocket-key1"
-def bChunked : Bytes := ascii "chunked"
-def bClose : Bytes := ascii "close"
-def bKeepAlive : Bytes := ascii "keep-alive"
+def bConnection : Bytes := [99, 111, 110, 110, 101, 99, 116, 105, 111, 110]
+def bUpgrade : Bytes := [117, 112, 103, 114, 97, 100, 101]
+def bContentEncoding : Bytes := [99, 111, 110, 116, 101, 110, 116, 45, 101, 110, 99, 111, 100, 105, 110, 103]
+def bTransferEncoding : Bytes := [116, 114, 97, 110, 115, 102, 101, 114, 45, 101, 110, 99, 111, 100, 105, 110, 103]
+def bContentLength : Bytes := [99, 111, 110, 116, 101, 110, 116, 45, 108, 101, 110, 103, 116, 104]
+def bHost : Bytes := [104, 111, 115, 116]
+def bSecWsKey1 : Bytes := [115, 101, 99, 45, 119, 101, 98, 115, 111, 99, 107, 101, 116, 45, 107, 101, 121, 49]
+def bChunked : Bytes := [99, 104, 117, 110, 107, 101, 100]
+def bClose : Bytes := [99, 108, 111, 115, 101]
+def bKeepAlive : Bytes := [107, 101, 101, 112, 45, 97, 108, 105, 118, 101]
 
 /-- request side `_is_chunked_te` -/
 def isChunkedTEReq (te : Bytes) : Except Err Bool :=
@@ -223,7 +223,7 @@ def isChunkedTEResp (te : Bytes) : Bool :=
   | some last => lowerEqChunkedUnicode (strip isOWS last) bChunked
   | none => false
 
-def encodings : List Bytes := [ascii "gzip", ascii "deflate", ascii "br", ascii "zstd"]
+def encodings : List Bytes := [[103, 122, 105, 112], [100, 101, 102, 108, 97, 116, 101], [98, 114], [122, 115, 116, 100]]
 
 def interpretHeaders (cfg : Cfg) (hs : List (Bytes × Bytes)) : Except Err HdrInfo :=
   let conn := getHeader hs bConnection
@@ -286,8 +286,8 @@ def splitRequestLine (line : Bytes) : Option (Bytes × Bytes × Bytes) :=
     | none => none
     | some (p, v) => some (m, p, v)
 
-def bCONNECT : Bytes := ascii "CONNECT"
-def bOPTIONS : Bytes := ascii "OPTIONS"
+def bCONNECT : Bytes := [67, 79, 78, 78, 69, 67, 84]
+def bOPTIONS : Bytes := [79, 80, 84, 73, 79, 78, 83]
 
 /-- `HttpRequestParser.parse_message`; `urlOk isConnect path` is the yarl oracle
 (`URL.build`/`URL()` accepted the target and, for the absolute-form branch, it is absolute) -/
@@ -530,7 +530,7 @@ def isEmptyBodyStatus (code : Nat) : Bool := Gen.Http.emptyBodyStatus.any (fun r
 def isEmptyBodyMethod (m : Bytes) : Bool := !m.isEmpty && Gen.Http.emptyBodyMethods.any (fun s => ofNats s == m)
 def supportedUpgrade (hs : List (Bytes × Bytes)) : Bool :=
   let u := (getHeader hs bUpgrade).getD []
-  isAscii u && (lower u == ascii "tcp" || lower u == ascii "websocket")
+  isAscii u && (lower u == [116, 99, 112] || lower u == [119, 101, 98, 115, 111, 99, 107, 101, 116])
 
 /-- `get_content_length` -/
 def contentLength (hs : List (Bytes × Bytes)) : Except Err (Option Nat) :=
@@ -554,7 +554,8 @@ def onHeaderBlock (cfg : Cfg) (urlOk : Bool → Bytes → Bool) (st : St) (lines
       if hasName msg.headers bSecWsKey1 then .error .invalidHeader else
       let upgraded := msg.upgrade && supportedUpgrade msg.headers
       let method := if cfg.response then cfg.respMethod else msg.method
-      let emptyBody := isEmptyBodyStatus msg.code || isEmptyBodyMethod method
+      -- only a *response* to HEAD is bodiless; `self.method` is None in the request parser
+      let emptyBody := isEmptyBodyStatus msg.code || (cfg.response && isEmptyBodyMethod cfg.respMethod)
       let st := { st with lines := [] }
       let lenPos := match length with | some n => n > 0 | none => false
       if !emptyBody && (lenPos || msg.chunked) then
